@@ -59,14 +59,26 @@ func c12Verify(pk *gabikeys.PublicKey, p *ProofD) (accepted, panicked bool) {
 	q2 := &ProofD{}
 	vfJSONCopy(p, q2)
 	pan2, _ := vkit.Guard(func() { ok2 = (ProofList{q2}).Verify([]*gabikeys.PublicKey{pk}, vfContext, vfNonce, false, nil) })
-	// hand the decoded copy's range proofs back for judging (MResponse is filled by verification)
-	return ok1 || ok2, pan1 || pan2
+	// third route: the Go objects are handed over directly (no wire), including whatever the sender put
+	// into fields that are not transported (MResponse)
+	q3 := &ProofD{}
+	vfJSONCopy(p, q3)
+	for idx, l := range p.RangeProofs {
+		for i, rp := range l {
+			if rp != nil && rp.MResponse != nil && i < len(q3.RangeProofs[idx]) && q3.RangeProofs[idx][i] != nil {
+				q3.RangeProofs[idx][i].MResponse = vfCopy(rp.MResponse)
+			}
+		}
+	}
+	var ok3 bool
+	pan3, _ := vkit.Guard(func() { ok3 = q3.Verify(pk, vfContext, vfNonce, false) })
+	return ok1 || ok2 || ok3, pan1 || pan2 || pan3
 }
 
 func TestVerifC12Crypto(t *testing.T) {
 	r := vkit.Start(t, "C12", "crypto-layer", 240*time.Second, 1200*time.Second)
 	defer r.Finish()
-	r.Rule = "credential (50, tag, 20, tag) x disclosure sets x true statements (>=,<=; 3 and 4 squares; factors 1,3) on attributes 1 and 3: honest proofs; false statements at bound-+1 must not be creatable; every single-field alteration of every range proof (Cs, ds, vs, v5, l_d, sign, a, k incl. k moved across the boundary); every transplant (to another hidden index, a disclosed index below / above the largest hidden index, unused base, len(R), 1000, -1; from another credential; moved and copied); non-trivial = distinct (base proof, alteration); oracle (semantic): accepted => every carried range proof is on a hidden existing index and its reported statement is true of the signed value; honest => accepted"
+	r.Rule = "credential (50, tag, 20, tag) x disclosure sets x true statements (>=,<=; 3 and 4 squares; factors 1,3) on attributes 1 and 3: honest proofs; false statements at bound-+1 must not be creatable; every single-field alteration of every range proof (Cs, ds, vs, v5, l_d, sign, a, k incl. k moved across the boundary); every transplant (to another hidden index, a disclosed index below / above the largest hidden index, unused base, len(R), 1000, -1; from another credential; moved and copied, also with the non-transported attribute-response field pre-set by the sender); consistent-lie forgeries (a well-formed range proof about a value satisfying the false statement, with the attribute's or a fresh randomiser, carrying its own response); three verification routes (wire copy, wire copy in a list, Go objects handed over directly); non-trivial = distinct (base proof, alteration); oracle (semantic): accepted => every carried range proof is on a hidden existing index and its reported statement is true of the signed value; honest => accepted"
 	table := rangeproof.GenerateSquaresTable(4096)
 	for _, keyName := range vkit.Pick([]string{"toyA"}, []string{"toyA", "k1024a"}) {
 		k := vfK(keyName)
@@ -166,6 +178,66 @@ func TestVerifC12Crypto(t *testing.T) {
 				}
 			}
 		}
+		// forgery by a consistent lie: a well-formed range proof about a value m' that satisfies the
+		// (false) statement, built with the real attribute's randomiser or a fresh one, its own response
+		// for m' left in the proof object; only the tie to the attribute response at the index stops it
+		for _, lie := range []struct {
+			idx, sign int
+			factor    uint
+			bound, m  int64
+			sp        rangeproof.SquareSplitter
+			desc      string
+		}{
+			{1, 1, 1, 1050, 1051, nil, "a1>=1050 via m'=1051 (4sq)"}, {1, -1, 1, 10, 9, nil, "a1<=10 via m'=9 (4sq)"},
+			{1, 1, 1, 51, 51, table, "a1>=51 via m'=51 (3sq)"}, {1, -1, 1, 49, 48, table, "a1<=49 via m'=48 (3sq)"},
+			{3, 1, 3, 61, 21, nil, "3*a3>=61 via m'=21 (4sq)"}, {3, -1, 8, 159, 19, nil, "8*a3<=159 via m'=19 (4sq)"},
+		} {
+			for _, rnd := range []string{"attribute-randomiser", "fresh-randomiser"} {
+				if _, mine := r.Next(); !mine {
+					continue
+				}
+				r.Eval()
+				desc := "consistent lie: " + lie.desc + ", " + rnd
+				r.Nontrivial(keyName + "|" + desc)
+				var forged *ProofD
+				pan, msg := vkit.Guard(func() {
+					b, err := credA.CreateDisclosureProofBuilder([]int{2}, nil, false)
+					if err != nil {
+						panic(err)
+					}
+					rs, _ := NewProofRandomizers()
+					list, err := b.Commit(rs)
+					if err != nil {
+						panic(err)
+					}
+					st, err := rangeproof.NewProofStructure(lie.idx, lie.sign, lie.factor, vfInt(lie.bound), lie.sp)
+					if err != nil {
+						panic(err)
+					}
+					mr := b.attrRandomizers[lie.idx]
+					if rnd == "fresh-randomiser" {
+						mr = vfTag("c12-lie-randomiser")
+					}
+					contrib, commit, err := st.CommitmentsFromSecrets(pk, vfInt(lie.m), mr)
+					if err != nil {
+						panic(err)
+					}
+					c := createChallenge(vfContext, vfNonce, append(list, contrib...), false)
+					forged = b.CreateProof(c).(*ProofD)
+					forged.RangeProofs = map[int][]*rangeproof.Proof{lie.idx: {st.BuildProof(commit, c)}}
+				})
+				if pan || forged == nil {
+					r.Outcome("lie:not-constructible")
+					r.Count("consistent-lie forgery not constructible: "+msg, 1)
+					continue
+				}
+				acc, _ := c12Verify(pk, forged)
+				r.Outcome(fmt.Sprintf("lie:accepted=%v", acc))
+				if acc {
+					c12Judge(r, attrs, forged, "forged-consistent-lie", map[string]any{"key": keyName, "forgery": desc})
+				}
+			}
+		}
 		foreign, err := credB.CreateDisclosureProof([]int{4}, map[int][]*rangeproof.Statement{1: {c12Stmt(1, 1, 4000, nil)}}, false, vfContext, vfNonce)
 		if err != nil {
 			r.HarnessError("foreign proof: %v", err)
@@ -242,6 +314,21 @@ func TestVerifC12Crypto(t *testing.T) {
 						add("copied", fmt.Sprintf("[%d][%d] copied to index %d", idx, i, tgt), func(p *ProofD) {
 							var c rangeproof.Proof
 							vfJSONCopy(p.RangeProofs[idx][i], &c)
+							p.RangeProofs[tgt] = append(p.RangeProofs[tgt], &c)
+						})
+						add("moved+m", fmt.Sprintf("[%d][%d] moved to index %d with its attribute response pre-set to the response of index %d", idx, i, tgt, idx), func(p *ProofD) {
+							e := p.RangeProofs[idx][i]
+							e.MResponse = vfCopy(p.AResponses[idx])
+							p.RangeProofs[idx] = append(append([]*rangeproof.Proof{}, p.RangeProofs[idx][:i]...), p.RangeProofs[idx][i+1:]...)
+							if len(p.RangeProofs[idx]) == 0 {
+								delete(p.RangeProofs, idx)
+							}
+							p.RangeProofs[tgt] = append(p.RangeProofs[tgt], e)
+						})
+						add("copied+m", fmt.Sprintf("[%d][%d] copied to index %d with its attribute response pre-set to the response of index %d", idx, i, tgt, idx), func(p *ProofD) {
+							var c rangeproof.Proof
+							vfJSONCopy(p.RangeProofs[idx][i], &c)
+							c.MResponse = vfCopy(p.AResponses[idx])
 							p.RangeProofs[tgt] = append(p.RangeProofs[tgt], &c)
 						})
 						add("bogus-added", fmt.Sprintf("copy of [%d][%d] claiming k=10^6 added at index %d", idx, i, tgt), func(p *ProofD) {
